@@ -22,7 +22,9 @@ import (
 	"github.com/pdfcpu/pdfcpu/pkg/pdfcpu"
 	"github.com/pdfcpu/pdfcpu/pkg/pdfcpu/model"
 	"verif/core"
+	"verif/engine"
 	"verif/simclock"
+	"verif/simfs"
 	"verif/pdfgen"
 )
 
@@ -71,6 +73,7 @@ type simCtx struct {
 	siteCount  map[string]int
 	flipSite   pollSite
 	seenAt     time.Time
+	callsNow   func() int // file leg: number of file-system events so far (instead of rs.calls)
 	reason     error // what Err() reports once the context has ended: Canceled, or DeadlineExceeded (its simulated deadline passes at the flip)
 }
 
@@ -110,6 +113,9 @@ func (c *simCtx) poll() {
 		if !c.firstSeen {
 			c.firstSeen = true
 			c.readsAtSeen = c.rs.calls
+			if c.callsNow != nil {
+				c.readsAtSeen = c.callsNow()
+			}
 			c.seenAt = time.VerifRealNow()
 			if c.flipSite.Site == "" {
 				c.flipSite = here
@@ -360,6 +366,53 @@ func doReadIO(b []byte, flipAtPoll, flipAtRead int, match *pollSite, matchIO *io
 		out.latency = end.Sub(sc.seenAt)
 	}
 	return out
+}
+
+// doReadFile is the file leg: pdfcpu.ReadFileWithContext opens the file itself, the simulated file
+// system (package os seam) counts its calls and tracks the handle. After the cancellation has been
+// seen at most B further file-system calls may follow (the closing of the file among them), the
+// handle must be closed when the call returns, and the directory must be as before.
+func doReadFile(b []byte, flipAtPoll int, reason string) (out readOutcome, leaked []string, dirChanged string, err error) {
+	dir, err := os.MkdirTemp(engine.ScratchBase(), "c10f-")
+	if err != nil {
+		return out, nil, "", err
+	}
+	defer os.RemoveAll(dir)
+	path := filepath.Join(dir, "doc.pdf")
+	if err := os.WriteFile(path, b, 0644); err != nil {
+		return out, nil, "", err
+	}
+	s0 := simfs.TakeSnap(dir)
+	runtime.VerifSetMapRand(mapSalt ^ 0xC10C10C10)
+	simclock.Install(mapSalt)
+	defer simclock.Uninstall()
+	sim := &simfs.Sim{Root: dir}
+	sc := newSimCtx()
+	sc.reason = reasonOf(reason)
+	sc.rs = &countRS{seekOcc: map[int64]int{}}
+	sc.flipAtPoll = flipAtPoll
+	sc.callsNow = func() int { return len(sim.Events) }
+	simfs.Activate(sim)
+	func() {
+		defer func() {
+			if p := recover(); p != nil {
+				out.panicVal = p
+			}
+		}()
+		out.ctx, out.err = pdfcpu.ReadFileWithContext(sc, path, conf())
+	}()
+	leaked = simfs.Deactivate()
+	out.polls, out.calls = sc.polls, len(sim.Events)
+	out.seen = sc.firstSeen
+	out.flipSite = sc.flipSite
+	if sc.firstSeen {
+		out.pollsAfter = sc.pollsAfter
+		out.callsAfter = len(sim.Events) - sc.readsAtSeen
+	}
+	if d := simfs.Diff(s0, simfs.TakeSnap(dir)); len(d) > 0 {
+		dirChanged = strings.Join(d, "; ")
+	}
+	return out, leaked, dirChanged, nil
 }
 
 // C10Unit: one document and mode.
@@ -637,6 +690,43 @@ func (c10) RunUnit(raw core.Unit, tier string, seed int64) core.UnitResult {
 		at := out.flipIO
 		record("io", n, out, C10Replay{Doc: u.Doc, Mode: "io", N: n, IOSite: &at, Reason: reason, MapSalt: mapSalt})
 	}
+	// file leg (ReadFileWithContext): pre-cancelled and cancellation at sampled polls
+	{
+		fullF, _, _, err := doReadFile(b, 0, "")
+		if err != nil || fullF.err != nil {
+			res.Trouble = fmt.Sprintf("file leg, uncancelled read of %s: %v %v", u.Doc.Name, err, fullF.err)
+			return res
+		}
+		nf := 12
+		if u.MaxK == 0 {
+			nf = 120
+		}
+		for i := 0; i < nf; i++ {
+			k := 1 + rng.IntN(fullF.polls)
+			if i == 0 {
+				k = 1
+			}
+			reason := []string{"", "deadline"}[i%2]
+			out, leaked, changed, err := doReadFile(b, k, reason)
+			if err != nil {
+				res.Trouble = err.Error()
+				return res
+			}
+			rp := C10Replay{Doc: u.Doc, Mode: "file", K: k, Reason: reason, MapSalt: mapSalt}
+			record("file", k, out, rp)
+			mkf := func(class, detail string) {
+				pb, _ := json.Marshal(rp)
+				res.Violations = append(res.Violations, core.Violation{Property: "C10", Class: class, Signature: fmt.Sprintf("%s|%s|file|%s|", u.Doc.Name, u.Doc.Mutate, class), Replay: pb,
+					Detail: fmt.Sprintf("document %s, ReadFileWithContext cancelled at poll %d: err=%v; %s", u.Doc.Name, k, out.err, detail)})
+			}
+			if len(leaked) > 0 {
+				mkf("file-handle-leaked", fmt.Sprintf("the call returned with %v still open", leaked))
+			}
+			if changed != "" {
+				mkf("directory-changed", "the read changed the directory: "+changed)
+			}
+		}
+	}
 	res.Probes["max_readseeker_calls_after_cancel_seen"] = maxAfterCalls
 	res.Probes["max_polls_after_cancel_seen"] = maxAfterPolls
 	res.Probes["max_latency_us_after_cancel_seen"] = int(maxLatency / time.Microsecond)
@@ -681,6 +771,23 @@ func (c10) Replay(payload json.RawMessage) ([]core.Violation, error) {
 			return []core.Violation{preViolation(rp.Doc, rp.Mode, ctx, err, rs.calls, rp)}, nil
 		}
 		return nil, nil
+	case "file":
+		fullF, _, _, err := doReadFile(b, 0, "")
+		if err != nil {
+			return nil, err
+		}
+		out, leaked, changed, err := doReadFile(b, rp.K, rp.Reason)
+		if err != nil {
+			return nil, err
+		}
+		vs := judge(rp.Doc, "file", rp.K, fullF, out, rp)
+		if len(leaked) > 0 {
+			vs = append(vs, core.Violation{Property: "C10", Class: "file-handle-leaked", Detail: fmt.Sprint(leaked)})
+		}
+		if changed != "" {
+			vs = append(vs, core.Violation{Property: "C10", Class: "directory-changed", Detail: changed})
+		}
+		return vs, nil
 	case "io":
 		if rp.IOSite == nil {
 			out := doRead(b, 0, rp.N, nil, rp.Reason)
